@@ -222,10 +222,11 @@ Proof.
       eapply IH; [|exact H]. eapply pq_inner_inv; [|exact E]. exact Hg.
 Qed.
 
-Theorem decompose_pq_partial rounds fuel pq rnd p q :
-  decompose_pq rounds fuel pq rnd = Ok (p, q) -> p * q = pq /\ 1 < p <= q.
+Theorem decompose_pq_partial isp rounds fuel pq rnd p q :
+  decompose_pq isp rounds fuel pq rnd = Ok (p, q) -> p * q = pq /\ 1 < p <= q.
 Proof.
-  unfold decompose_pq. destruct (pq_outer rounds fuel pq 0 0 rnd) as [g| |] eqn:E; try discriminate.
+  unfold decompose_pq. destruct ((pq <? 4) || isp); [discriminate|].
+  destruct (pq_outer rounds fuel pq 0 0 rnd) as [g| |] eqn:E; try discriminate.
   apply pq_outer_inv in E; [|left; reflexivity]. destruct E as (Hr & k & Hk).
   assert (Hq : pq / g = k) by (subst pq; apply Z.div_mul; lia).
   cbv zeta. rewrite Hq.
@@ -234,16 +235,15 @@ Proof.
 Qed.
 
 (* hence, for a semiprime, the two primes in ascending order *)
-Corollary decompose_pq_semiprime rounds fuel a b rnd p q :
+Corollary decompose_pq_semiprime isp rounds fuel a b rnd p q :
   prime a -> prime b -> a <= b ->
-  decompose_pq rounds fuel (a * b) rnd = Ok (p, q) -> p = a /\ q = b.
+  decompose_pq isp rounds fuel (a * b) rnd = Ok (p, q) -> p = a /\ q = b.
 Proof.
   intros Ha Hb Hab H. apply decompose_pq_partial in H as (Hpq & Hp).
   pose proof (prime_ge_2 a Ha). pose proof (prime_ge_2 b Hb).
   assert (Hd : (a | p * q)) by (rewrite Hpq; apply Z.divide_factor_l).
   destruct (prime_mult a Ha p q Hd) as [[k Hk]|[k Hk]].
-  - (* p = k * a, hence k * q = b, q | b, q = b *)
-    assert (Hkq : k * q = b) by nia.
+  - assert (Hkq : k * q = b) by nia.
     assert (Hqb : (q | b)) by (exists k; lia).
     destruct (prime_divisors b Hb q Hqb) as [?|[?|[?|?]]]; try lia.
     subst q. assert (k = 1) by nia. subst k. lia.
@@ -251,4 +251,24 @@ Proof.
     assert (Hpb : (p | b)) by (exists k; lia).
     destruct (prime_divisors b Hb p Hpb) as [?|[?|[?|?]]]; try lia.
     subst p. assert (k = 1) by nia. subst k. lia.
+Qed.
+
+(* the guard makes the big.Int divisions by zero unreachable: no panic for ANY input *)
+Lemma pq_outer_no_panic rounds fuel what : 4 <= what ->
+  forall i g rnd, pq_outer rounds fuel what i g rnd <> Panic.
+Proof.
+  intros Hw. induction rounds as [|r IH]; intros i g rnd; cbn [pq_outer].
+  - destruct ((1 <? g) && (g <? what)); discriminate.
+  - destruct ((1 <? g) && (g <? what)); [discriminate|].
+    destruct rnd as [|r1 [|r2 rnd']]; try discriminate.
+    destruct (Z.eqb_spec what 0); [lia|]. destruct (Z.eqb_spec (what - 1) 0); [lia|].
+    cbv zeta. destruct (pq_inner _ _ _ _ _ _ _ _); [apply IH|discriminate].
+Qed.
+Theorem decompose_pq_no_panic isp rounds fuel pq rnd : decompose_pq isp rounds fuel pq rnd <> Panic.
+Proof.
+  unfold decompose_pq. destruct (Z.ltb_spec pq 4); cbn [orb]; [discriminate|].
+  destruct isp; [discriminate|].
+  pose proof (pq_outer_no_panic rounds fuel pq H 0 0 rnd) as Hn.
+  destruct (pq_outer rounds fuel pq 0 0 rnd) as [g| |]; [|discriminate|contradiction].
+  cbv zeta. destruct (g >? pq / g); discriminate.
 Qed.
